@@ -737,6 +737,14 @@ def run(ctx):
             U2 = [p for repo in order2 for p in repo]
             snap = snapshot(r2, U2, {c15.pid(p): i for i, p in enumerate(U2)})
             um = unmet_clauses(snap["F"], snap["touched"])
+            if not um and steps[-1]["status"] == "ok":
+                # ... or one of the two plans holds a package whose key+slot lies on a cycle of the slot graph (the resolver's own notion
+                # of 'the same package'): what check_for_cycles assumes there depends on the frames and the insoluble memory at that moment
+                sg = c15.slot_graph(U2)
+                ids = {tuple(pid(q)) for q in steps[-1]["after"]["touched"]} | {tuple(pid(q)) for q in snap["touched"]}
+                cyc = sorted({f"{q.key}:{q.slot}" for q in U2 if tuple(pid(q)) in ids and (q.key, q.slot) in c15.reach(sg, (q.key, q.slot))})
+                if cyc:
+                    um = [f"(no unmet clause; planned packages on a slot cycle: {cyc})"]
             if um:
                 fnd = CYCLE_FINDING
         det.append((case3, mode, targets, res))
